@@ -151,7 +151,7 @@ func colStrings[K keyC](ks []K, vs []tlb.Uint32) (keys, vals []string, err error
 	return keys, vals, nil
 }
 func (d *gd[K]) Cols() ([]string, []string, error) { return colStrings(d.m.Keys(), d.m.Values()) }
-func (d *gd[K]) JSON() ([]byte, error)            { return json.Marshal(d.m) }
+func (d *gd[K]) JSON() ([]byte, error)             { return json.Marshal(d.m) }
 func (d *gd[K]) Plain(root *boc.Cell) ([][2]string, []string, []string, []byte, error) {
 	var hm tlb.Hashmap[K, tlb.Uint32]
 	if root != nil {
@@ -880,7 +880,7 @@ func Drive(w *ev.Writer, o Opts) {
 					break
 				}
 			}
-			r.observe(false) // the dictionary in memory after updates (no longer in key-bit order for signed keys)
+			r.observe(false)        // the dictionary in memory after updates (no longer in key-bit order for signed keys)
 			if r.enc() && r.enc() { // twice: the second encoding is of the dictionary the first one left in memory
 				if r.dec() {
 					r.observe(true)
